@@ -79,9 +79,10 @@ Definition bind_material_sync (old materials : list N) := py_sync old materials.
 Definition mesh_sync (is_extra : N -> bool) (old sources : list N) (vertices : N) (prims : list N) :=
   py_sync old (sources ++ vertices :: prims ++ filter is_extra old).
 
-(* Effect.save: every <newparam> is taken out of <profile_COMMON>, then the parameters' nodes are
-   inserted, in list order, where <technique> is.  <image>, <technique> and <extra> are not
-   managed by the parameter list. *)
+(* Effect.save: every <newparam> (and every <image> declared locally: it belongs to the document's
+   image library and is written there) is taken out of <profile_COMMON>, then the parameters' nodes
+   are inserted, in list order, where <technique> is.  [is_param] selects the children that are
+   taken out; <technique> and <extra> are not managed by the parameter list. *)
 Fixpoint index_of (u : N) (l : list N) : nat :=
   match l with [] => O | x :: r => if N.eqb x u then O else S (index_of u r) end.
 Definition profile_sync (is_param : N -> bool) (tec : N) (old params : list N) : list N :=
